@@ -4,6 +4,8 @@ import Martian.FormatCall
 import Driver.Util
 import Driver.C09Decl
 
+import Driver.C09Call2
+
 /-! Line-protocol handler for property C09 (formatter core). -/
 namespace Driver.C09
 open Martian.Format Driver
@@ -180,6 +182,6 @@ def handle (op : String) (args : List String) : Option String :=
   | "normcall", [c] => do
     let c ← decCall c
     pure (encCall (Martian.FormatCall.normCall c))
-  | op, args => Driver.C09.handleDecl op args
+  | op, args => Driver.C09.handleDecl op args <|> Driver.C09.handleCall2 op args
 
 end Driver.C09
